@@ -4,8 +4,12 @@
 (* A lock-step comparator over pairs of traces A, B recorded from two        *)
 (* fresh `python main.py --flagfile F --random_seed N` processes run on the  *)
 (* same (world, flags, seed) - only PYTHONHASHSEED (and the wall clock, the  *)
-(* process id, the output file names) differ.  A trace is the complete CSV   *)
-(* file of a run, one record per row:                                       *)
+(* process id, the output file names) differ.  The world is given in any of  *)
+(* the workload modes of main.py (YAML / JSON workload description, Alibaba  *)
+(* trace replay) or through a loader of /repo/data that main.py constructs   *)
+(* without running it (Pylot profile, Clockwork bursty generator): the row   *)
+(* vocabulary is the simulator's and is the same in every mode.  A trace is  *)
+(* the complete CSV file of a run, one record per row:                       *)
 (*     [ty |-> row type, t |-> simulated time of the row (-1 if none),       *)
 (*      f  |-> <<all comma separated columns of the row, as strings>>]       *)
 (* (`input_flag,<name>,<value>` rows have ty = "input_flag", f of length 3;  *)
@@ -47,7 +51,10 @@
 (* Output (one TLC run per batch of pairs, run with -continue):              *)
 (*   <<"@@D", pair id, k, clause, hint, A[k].f, B[k].f>>   per divergence    *)
 (*   <<"@@E", pair id, rows compared, Len(A), Len(B), ord.n, last clause,    *)
-(*     SameChoices(A, B)>>                                 per pair, at end  *)
+(*     SameChoices(A, B), RunShape(A), RunShape(B)>>       per pair, at end  *)
+(* RunShape says how far a run got (graphs released, placements, finished    *)
+(* tasks, SIMULATOR_END rows): a workload mode whose runs did not simulate   *)
+(* anything is not counted as exercised by the harness.                      *)
 EXTENDS Integers, Sequences, FiniteSets, TLC, Json
 
 CONSTANTS PairsFile,     \* JSON file: sequence of [id, mask, a, b]
@@ -133,6 +140,8 @@ Schema(ty) ==
       [] ty = "SIMULATOR_END" ->
             Sch(<<"time", "type", "finished_tasks", "cancelled_tasks", "missed_task_deadlines",
                   "finished_graphs", "cancelled_graphs", "missed_graph_deadlines">>, {1}, {}, {}, {3, 4, 5, 6, 7, 8}, {}, "none")
+      [] ty = "PROCESS_EXIT" ->  \* appended by the harness: how the process ended
+            Sch(<<"none", "type", "exit_class", "exception">>, {}, {}, {}, {}, {}, "none")
       [] OTHER -> Sch(<<"time", "type">>, {1}, {}, {}, {}, {}, "none")
 
 PlacementTypes == {"TASK_SCHEDULED", "TASK_PLACEMENT", "TASK_SKIP", "TASK_NOT_READY", "WORKER_NOT_READY",
@@ -231,6 +240,11 @@ Hint(k, c) ==
 
 RowF(X, k) == IF k <= Len(X) THEN X[k].f ELSE <<>>
 
+\* how far the run with trace X got: <<graphs released, placements, finished tasks, SIMULATOR_END rows>>
+CountTy(X, ty) == Cardinality({j \in 1..Len(X) : X[j].ty = ty})
+RunShape(X) == <<CountTy(X, "TASK_GRAPH_RELEASE"), CountTy(X, "TASK_PLACEMENT"), CountTy(X, "TASK_FINISHED"),
+                 CountTy(X, "SIMULATOR_END")>>
+
 -----------------------------------------------------------------------------
 (* The lock-step state machine                                              *)
 
@@ -266,7 +280,7 @@ Finish ==
     /\ Terminal(d) \/ i >= Max2(LenA, LenB)
     /\ fin' = TRUE
     /\ d' = NoDiv
-    /\ PrintT(<<"@@E", Pairs[p].id, i, LenA, LenB, ord.n, d.c, SameChoicesP(Pairs[p])>>)
+    /\ PrintT(<<"@@E", Pairs[p].id, i, LenA, LenB, ord.n, d.c, SameChoicesP(Pairs[p]), RunShape(A), RunShape(B)>>)
     /\ UNCHANGED <<p, i, ord>>
 
 Next == Step \/ Finish
